@@ -215,7 +215,7 @@ package kafka
 // an attached batch is well formed, non-empty and NOT full: it can always take the next message or be refused by add
 //@ spec ptwInv(ptw any) bool
 //@   macro
-//@   def ptw.currBatch != nil ==> wbOK(ptw.currBatch) && ptw.currBatch.size >= 1 && ptw.currBatch.size < ptw.w.batchSize() && ptw.currBatch.bytes < ptw.w.batchBytes()
+//@   def ptw.currBatch != nil ==> wbOK(ptw.currBatch) && ptw.currBatch.size >= 1 && ptw.currBatch.size < ptw.w.batchSize() && ptw.currBatch.bytes < ptw.w.batchBytes() && ptw.currBatch.timer != nil && !ptw.currBatch.timer.$rearmed
 
 //@ lock (*batchQueue).mutex as b
 //@   option via cond.L
@@ -243,8 +243,12 @@ package kafka
 //@ func (*Writer).batchTimeout
 //@   pure
 //@   reads w.BatchTimeout
+// C08: the flush timer of a batch is armed once, when the batch is opened, with the timeout it is given (BatchTimeout), and
+// the open batch's timer is never re-armed (ptwInv): the batch is flushed BatchTimeout after it was OPENED, not after the
+// last message was added to it.
 //@ func newWriteBatch
 //@   ensures wbOK(result) && result.size == 0 && result.bytes == 0 && fresh(result) && result.msgs == nil
+//@   ensures result.timer != nil && !result.timer.$rearmed
 //@ property C08 C07 C01 C10 C09
 // spawn: the goroutine is counted in the writer's WaitGroup before it is started (Add precedes go), so Close's
 // group.Wait() cannot return while a spawned goroutine has not run yet. No effect on memory the other contracts mention.
@@ -255,6 +259,7 @@ package kafka
 //@ property C08 C07 C01 C10
 //@ func (*partitionWriter).newWriteBatch
 //@   ensures wbOK(result) && result.size == 0 && result.bytes == 0 && fresh(result) && result.msgs == nil
+//@   ensures result.timer != nil && !result.timer.$rearmed
 
 //@ func (*partitionWriter).writeMessages
 //@   assume batch message arrays (writeBatch.msgs backing stores) are owned by their batch and never alias a slice supplied by a caller
